@@ -239,7 +239,8 @@ def regmc_batch(work, res, quick, rng):
         rng.shuffle(after)
         edges = edges[:120] + [a for a in after if len(a["path"]) == 1] + [a for a in after if len(a["path"]) > 1][:150]
     else:
-        edges = edges + after
+        rng.shuffle(after)
+        edges = edges + [a for a in after if len(a["path"]) == 1] + [a for a in after if len(a["path"]) > 1][:900]
     res.extra["regseqmc"]["transitions_replayed"] = len(edges)
     defs, scen = {}, []
     for k, e in enumerate(edges):
